@@ -1,12 +1,18 @@
 //! Conformance drivers (pv-cbor). Sub-commands are added per property.
 mod helpers;
 mod numranges;
+mod plutus;
+mod scriptdata;
 
 fn main() {
     let args = pv_core::Args::parse();
     match args.cmd.as_str() {
         "helpers-replay" => helpers::replay(&args),
         "numranges-replay" => numranges::replay(&args),
+        "plutus-replay" => plutus::replay(&args),
+        "plutus-cmp" => plutus::cmp_trace(&args),
+        "scriptdata-parts" => scriptdata::parts(&args),
+        "scriptdata-replay" => scriptdata::replay(&args),
         other => pv_core::die(&format!("unknown sub-command {other}")),
     }
 }
